@@ -61,8 +61,8 @@ CLAIMED["C17"] = dict(engine="sortfields", design="4 C17",
         "modelling sorted() by insertion sort), explicit listed-first form, ValueError iff duplicates after folding, normalisation = "
         "first-occurrence key order with last-occurrence values, frame, idempotence; tied to /repo by differential correspondence through "
         "the real middleware classes' transform(library) and an independent Python oracle of the property text.",
-   note="sorted() assumed to meet the stable-sort contract (unique result proved); str.lower is the ASCII instance (other cased letters are "
-        "checked by the Python oracle only); blocks of the input library share no objects (aliasing is C07); model hand-written, tied by "
+   note="sorted() assumed to meet the stable-sort contract (unique result proved); the theorems also hold for EVERY str.lower as an abstract oracle (C17_gen_*: no hypothesis except idempotence of lower for idempotence of NormalizeFieldKeys / lower-case keys, proved necessary and sufficient, and brute-force checked on CPython); the executable correspondence runs the ASCII instance (C17_gen_instance), other cased letters go "
+        "through the Python oracle only; blocks of the input library share no objects (aliasing is C07); model hand-written, tied by "
         "correspondence; extraction cross-checked by vm_compute",
    technique="Coq proof (induction over lists) + differential correspondence via extracted model + independent oracle")
 CLAIMED["C16"] = dict(engine="sortblocks", design="4 C16",
